@@ -3,6 +3,7 @@ package parser
 import (
 	"errors"
 	"fmt"
+	"reflect"
 )
 
 func toFloat(op Operand) (float64, error) {
@@ -50,6 +51,55 @@ func newErrInvalidOperand(val Operand, typeObj interface{}) *ErrInvalidOperand {
 	}
 }
 
+// cyclic reports whether v reaches one of its own maps, slices or pointers again
+// (printing such a value with %v never ends); path holds the containers being visited.
+func cyclic(v reflect.Value, path []uintptr) bool {
+	switch v.Kind() {
+	case reflect.Interface:
+		return !v.IsNil() && cyclic(v.Elem(), path)
+	case reflect.Ptr, reflect.Map, reflect.Slice:
+		if v.IsNil() {
+			return false
+		}
+		p := v.Pointer()
+		for _, q := range path {
+			if q == p {
+				return true
+			}
+		}
+		path = append(path, p)
+		switch v.Kind() {
+		case reflect.Ptr:
+			return cyclic(v.Elem(), path)
+		case reflect.Map:
+			for it := v.MapRange(); it.Next(); {
+				if cyclic(it.Value(), path) {
+					return true
+				}
+			}
+		default:
+			for i := 0; i < v.Len(); i++ {
+				if cyclic(v.Index(i), path) {
+					return true
+				}
+			}
+		}
+	case reflect.Array:
+		for i := 0; i < v.Len(); i++ {
+			if cyclic(v.Index(i), path) {
+				return true
+			}
+		}
+	case reflect.Struct:
+		for i := 0; i < v.NumField(); i++ {
+			if cyclic(v.Field(i), path) {
+				return true
+			}
+		}
+	}
+	return false
+}
+
 func (e *ErrInvalidOperand) Error() (text string) {
 	// printing the operand can panic (a String method that keeps panicking)
 	defer func() {
@@ -57,6 +107,10 @@ func (e *ErrInvalidOperand) Error() (text string) {
 			text = fmt.Sprintf("Operand is not the correct type. Expected: %T, Actual: %T", e.typeObj, e.Val)
 		}
 	}()
+	// an operand that contains itself cannot be printed
+	if cyclic(reflect.ValueOf(e.Val), nil) {
+		return fmt.Sprintf("Operand (a value that contains itself) is not the correct type. Expected: %T, Actual: %T", e.typeObj, e.Val)
+	}
 	// %T also prints untyped nil values (reflect.TypeOf(nil) is a nil Type)
 	return fmt.Sprintf("Operand %v is not the correct type. Expected: %T, Actual: %T",
 		e.Val,
